@@ -190,6 +190,8 @@ def expected_channel_output():
 
 
 def work(payload, skip, report):
+    if payload[0] == "ctxopts":
+        return work_ctx(payload, skip, report)
     acc = Acc(PROP)
     tier, prefixes, depth, alone_list = payload
     d = scratch_dir("c09")
@@ -242,6 +244,59 @@ def work(payload, skip, report):
     return acc
 
 
+# ---------------------------------------------------------------- histories of contexts with different options
+# The observed context itself is created with one option set after contexts with other option sets (including the same
+# extension tag name with different nesting data) have been created, used and closed in the same process.
+CTX_OPTS = {
+    "default": {},
+    "foo_inline": {"extension_tags": {"foo": {"parents": ["phrasing"], "content": ["phrasing"]}}},
+    "foo_block": {"extension_tags": {"foo": {"parents": ["flow"], "content": ["flow"]}}},
+    "foo_void": {"extension_tags": {"foo": {"parents": ["phrasing"], "content": [], "no-end-tag": True}}},
+    "span_block": {"extension_tags": {"span": {"parents": ["flow"], "content": ["flow"]}}},
+    "alias_if": {"parser_function_aliases": {"#myalias": "#if"}},
+    "alias_ifeq": {"parser_function_aliases": {"#myalias": "#ifeq"}},
+    "lang_fr": {"lang_code": "fr"},
+    "wikipedia": {"project": "wikipedia"},
+}
+CTX_PROBES = ["<foo>a<div>b</div>c</foo>", "<span>a<div>b</div>c</span> <foo>x", "{{#myalias:1|1|y|n}}", "<p>a<foo>b</foo>c</p>",
+              "{{ns:Template}} {{int:x}} [[Category:c]]"]
+
+
+def ctx_observe(opts_seq):
+    """Creates, uses and closes a context for each option set but the last; returns what the last one observes."""
+    obs = None
+    for k, name in enumerate(opts_seq):
+        c = new_ctx(**CTX_OPTS[name])
+        c.add_page("Template:a", 10, "A[{{{1|}}}]")
+        out = []
+        for t in CTX_PROBES:
+            c.start_page("Tt")
+            try:
+                out.append([dump(c.parse(t)), c.expand(t), msgs(c)])
+            except Exception as e:
+                out.append("EXC " + type(e).__name__ + ": " + str(e)[:80])
+        close_ctx(c)
+        obs = out
+    return obs
+
+
+def work_ctx(payload, skip, report):
+    acc = Acc(PROP)
+    _, seqs = payload
+    for i, seq in enumerate(seqs):
+        report(i)
+        got = in_child(ctx_observe, list(seq))
+        want = in_child(ctx_observe, [seq[-1]])
+        acc.case()
+        acc.distinct("observations", got)
+        acc.count("context_option_histories")
+        if got != want:
+            diff = [j for j in range(len(CTX_PROBES)) if isinstance(got, list) and isinstance(want, list) and got[j] != want[j]]
+            acc.violation("independent_of_earlier_contexts_options", {"contexts_created_in_order": list(seq), "probes": [CTX_PROBES[j] for j in diff]},
+                          [str(got[j])[:300] for j in diff] if diff else str(got)[:300], [str(want[j])[:300] for j in diff] if diff else str(want)[:300])
+    return acc
+
+
 def replay(case):
     d = scratch_dir("c09r")
     try:
@@ -284,6 +339,11 @@ def main(run):
         for e1 in evs:
             for e2 in evs:
                 chunks.append((run.tier, [(e1, e2)], 3, alone))
+    names = list(CTX_OPTS)
+    seqs = [(a, b) for a in names for b in names] + ([] if q else [(a, b, c) for a in names for b in names for c in names])
+    for k in range(16):
+        if seqs[k::16]:
+            chunks.append(("ctxopts", seqs[k::16]))
     done = 0
     for cid, acc, hung in run_chunks(work, chunks, nproc=run.nproc, case_timeout=60):
         run.acc.merge(acc)
@@ -302,7 +362,9 @@ def main(run):
                 "each by expand and selected ones by parse / parse(expand_all); creating and closing another context with each of %d "
                 "option sets; start_section) that ends in a page event; every history is rebuilt from scratch on a new context over "
                 "one committed database file; states = distinct prefixes, transitions = distinct histories; the oracle is the "
-                "observation of the last event alone on a fresh context" % (maxd, len(evs), len(PAGES), len(CHANNELS), len(OTHER_CTX)),
+                "observation of the last event alone on a fresh context; plus every sequence of %d contexts over %d option sets (same "
+                "extension tag name with inline / block / void data, a built-in tag overridden, two meanings of one parser-function "
+                "alias, language, project) created, used and closed in one process, the last one compared with itself alone" % (maxd, len(evs), len(PAGES), len(CHANNELS), len(OTHER_CTX), 2 if q else 3, len(CTX_OPTS)),
         "exhaustive": True,
         "bound": "history length <= %d" % maxd,
     }
